@@ -42,6 +42,22 @@ Theorem C15_in_chamber_b_sound : forall D s A v, in_chamber_b D s A v = true -> 
 Proof. exact in_chamber_b_sound. Qed.
 Print Assumptions C15_in_chamber_b_sound.
 
+(* each primitive step of the canonicaliser keeps the implied two-qubit matrix
+   g * kron(after) * exp(i(x XX + y YY + z ZZ)) * kron(before), for all cos/sin values (generic ring); numpy's
+   elementwise ** on the flippers is modelled as such *)
+Theorem C15_kak_canon_step_local : forall K (O : Ops K), Laws O -> forall s b t,
+  well_formed_step s = true -> lit_book b -> implied O (step_book O s b) (step_trig O s t) = implied O b t.
+Proof. exact @step_local. Qed.
+Print Assumptions C15_kak_canon_step_local.
+(* hence for EVERY input the recorded decomposition has the same matrix as the input interaction, for any assignment
+   of (cos, sin) pairs that respects shift-by-pi/2 and negation *)
+Theorem C15_kak_canon_steps_local : forall K (O : Ops K), Laws O -> forall D A f v, trig_respects O D f ->
+  implied O (run_book O (kak_canon_steps D A v) (book0 O)) (tv f (kak_canon_v D A v)) = interaction O (tv f v).
+Proof. exact kak_canon_steps_local. Qed.
+Print Assumptions C15_kak_canon_steps_local.
+Example C15_trig_respects_example : trig_respects K8Ops 1 f8.
+Proof. exact trig_respects_example. Qed.
+
 (* validators: a passing comparison of the recomposed operations / factors is an equality of matrices *)
 Theorem C15_reconstructs_sound : forall K (O : Ops K) (eqb : K -> K -> bool), (forall a b, eqb a b = true -> a = b) ->
   forall sh ops U, reconstructs_b O eqb sh ops U = true -> reconstructs O sh ops U.
